@@ -32,12 +32,15 @@ def exec_prop(pid, results, extra=None, n_quick=280, n_thorough=4000, more=()):
 
 
 PROPS = {
-    "C01": exec_prop("C01", {"R_C01": "mon", "R_waits": "mon"}, more=["Properties/C01deps.v"]),
-    "C02": exec_prop("C02", {"R_C02": "mon", "R_calls": "mon", "R_waits": "mon"}),
+    "C01": exec_prop("C01", {"R_C01": "mon", "R_waits": "mon"}, more=["Properties/C01deps.v", "Properties/C02seal.v"]),
+    "C02": exec_prop("C02", {"R_C02": "mon", "R_calls": "mon", "R_waits": "mon"},
+                     more=["Properties/C02calls.v", "Properties/C02seal.v"]),
     "C03": exec_prop("C03", {"R_C03": "mon", "R_C03s": "mon", "R_C01": "mon", "R_calls": "mon"},
-                     more=["Properties/C03fail.v"]),
-    "C06": exec_prop("C06", {"R_C06": "mon", "R_calls": "mon", "R_waits": "mon"}),
-    "C07": exec_prop("C07", {"R_C07": "mon", "R_eager": "mon"}, extra="cyclic=1", more=["Properties/C07progress.v"]),
-    "C13": exec_prop("C13", {"R_C13": "mon", "R_calls": "mon", "R_C01": "mon"}),
+                     more=["Properties/C03fail.v", "Properties/C03status.v", "Properties/C02calls.v"]),
+    "C06": exec_prop("C06", {"R_C06": "mon", "R_calls": "mon", "R_waits": "mon"},
+                     more=["Properties/C06outcome.v", "Properties/C02calls.v", "Properties/C02seal.v"]),
+    "C07": exec_prop("C07", {"R_C07": "mon", "R_eager": "mon"}, extra="cyclic=1,fanout=1", more=["Properties/C07progress.v", "Properties/C07term.v"]),
+    "C13": exec_prop("C13", {"R_C13": "mon", "R_calls": "mon", "R_C01": "mon"},
+                     more=["Properties/C02calls.v", "Properties/C01deps.v"]),
     "C14": exec_prop("C14", {"R_C14": "mon", "R_C02": "mon"}, more=["Properties/C14defer.v"]),
 }
